@@ -31,7 +31,7 @@ func init() {
 		return parseObservable(unhex(strings.Fields(line)[0]))
 	})
 	// token stream of the stand-alone lexer: kind:text@loc ...
-	lexLeg := func(line string) string {
+	lexLegW := func(line string, always bool) string {
 		src := unhex(strings.Fields(line)[0])
 		l := lexer.NewLexer(src, "verif")
 		var errs []lexer.ParseError
@@ -51,14 +51,20 @@ func init() {
 			}
 		}
 		lex, _ := splitErrs(errs)
-		wl := len(lex) == 0
+		wl := len(lex) == 0 || always
 		var b strings.Builder
 		b.WriteString("L:" + strings.Join(lex, ",") + " T:")
 		for _, t := range toks {
-			b.WriteString(fmt.Sprintf(" %d:%s%s", t.kind, hs(t.str), locS(wl, t.loc)))
+			// errlocs leg: the Loc of a string token itself is not compared (an unfinished string's own Loc is not
+			// modelled); the tokens AFTER it are what matters
+			b.WriteString(fmt.Sprintf(" %d:%s%s", t.kind, hs(t.str), locS(wl && !(always && t.kind == int(lexer.TkString)), t.loc)))
 		}
 		return b.String()
 	}
+	lexLeg := func(line string) string { return lexLegW(line, false) }
+	// C04: token Locs also in files WITH lexical errors (illegal tokens, unfinished strings): the line/column bookkeeping
+	// after such a token is what later ranges are computed from
+	register("c04.errlocs", func(line string) string { return lexLegW(line, true) })
 	register("c03.lex", lexLeg)
 	register("c04.toks", lexLeg) // C04 looks at the same token stream (ranges vs. the LSP reading of the text)
 	// C04: the Locs of every name-bearing AST node (what definition / references / rename / symbols forward)
